@@ -12,7 +12,7 @@ BASE_NOTE = ("Trusted base: rustc nightly's type checker, MIR construction and I
 
 CLAIMS = {
     "C02": ("durability/ordering protocol + error discipline (MUSTPASS/ORDER/GUARDED/ORIGIN over MIR CFGs); re-evaluates the manifest reader/replay/rollover rules C13.1/5/6",
-            "Decides the protocol shape that crash safety needs on every path: ack only after the covering fdatasync (the coalesced token is the maximum offset under every ordering), SST "
+            "Decides the protocol shape that crash safety needs on every path: ack only after the covering fdatasync (the coalesced token is the maximum offset under every ordering; everything handed to the fsync queue is a write-queue token or 0), SST "
             "sync before use, manifest write<flush<sync<rollover, link<manifest<install, log retired last and only on the Ok edge of the ingest, no storage error "
             "dropped or unwrapped, no truncating open of data files.  A batch is reduced to one entry per key before it is stamped, logged and inserted (what is durable can be replayed), and every explicit panic on the write path is an internal invariant listed with its reason.  Does not enumerate crash states.", "§4 C02"),
     "C09": ("checksum-gate dominance, sanity-gate chain, bounded-allocation slice, R-ERR + explicit-panic audit + implicit-bounds audit (array-bounds dataflow on byte buffers) over REACH(read entry points)",
@@ -25,7 +25,7 @@ CLAIMS = {
             "Decides: append acknowledges only after the covering fdatasync; frame CRC gate and header size bounds dominate "
             "the hand-out; the discriminants written equal those accepted and FIRST is completed only by SECOND; split "
             "records are written header/payload/pad/header/payload after the size checks; failures poison the builder; no "
-            "error is lost or unwrapped in the reader.  An error leaves no bytes of the failed batch in the reader's buffer.  Does not decide boundary arithmetic, the prefix property under "
+            "error is lost or unwrapped in the reader; fsync() hands the sync queue a value in the write queue's unit.  An error leaves no bytes of the failed batch in the reader's buffer.  Does not decide boundary arithmetic, the prefix property under "
             "truncation, or exactly-once under interleavings.", "§4 C12"),
     "C13": ("ORDER/GUARDED/ORIGIN over Manifest::{open,_apply,rollover} and ManifestIterator::next; who-may-call on manifest files; HELD for the lock table; implicit-bounds audit of mani",
             "Decides: one append then sync_data before apply returns; rollover links a backup, writes the roll-up to a "
@@ -58,7 +58,7 @@ CLAIMS = {
             "Decides the critical-section and completion-order skeleton linearizability needs: one critical section assigns queue "
             "position, sequence number, memtable and log; Ok only after append < insert < head-of-list wait < unlink < notify; "
             "readers capture (mem, imm, version, timestamp) in one critical section; rollover swaps and drains in one critical "
-            "section and clears imm after ingest; the readers' timestamp field is advanced only after the batch is inserted and "
+            "section, creates the new log before its first state write (a failed rollover leaves the store as it was) and clears imm after ingest; a failed write leaves the wait list and notifies under the store mutex; the readers' timestamp field is advanced only after the batch is inserted and "
             "at the head of the list.  Does not decide linearizability over all interleavings.", "§4 C06"),
     "C18": ("ORDER/MUSTPASS/loop-body MUSTPASS/HELD/WRITES over do_work, WaitList and the LRU; wait-kind classification (filtering vs. plain condvar waits) with HELD at predicate writers; lock-order graph of sync42",
             "Decides hand-off and accounting pairing: every do_work exit unlinks then notifies, returns its own waiter's Output, "
@@ -82,13 +82,13 @@ CLAIMS = {
             "of comparisons), a compaction is expanded only by files contained in its range, an ingest derives the installed "
             "version from a snapshot re-read after its stall wait, and the memtable answers for exactly the requested key at the "
             "requested timestamp with versions ordered newest first; recovery's level propagation re-queues every component "
-            "whose level it raises (worklist relaxation).  In a deeper level every file between lower_bound(key) and upper_bound(key) is consulted, and compaction outputs are cut only between two different keys.  Does not decide "
-            "compaction input closure, the rest of recovery level assignment, bloom/block search arithmetic.", "§4 C01"),
+            "whose level it raises (worklist relaxation).  In a deeper level every file between lower_bound(key) and upper_bound(key) is consulted, and compaction outputs are cut only between two different keys; a compaction candidate is offered only behind a test that every overlapping file of the levels in between is one of its inputs; a new file enters at level 0; recovery must treat a group of mutually unordered files specially before handing it to one level (it does not: known finding F32).  Does not decide "
+            "the arithmetic of the compaction input closure, the rest of recovery level assignment, bloom/block search arithmetic.", "§4 C01"),
     "C03": ("ORIGIN chains (pipeline composition), loop-body MUSTPASS (every file wrapped and merged), GUARDED (overlap skip) plus the overlap predicate's decision table over (bound kinds x key order) read from MIR, HELD (snapshot capture); re-evaluates C11.1/4/5/6, C06.3/5, C05.5",
             "Decides pipeline composition: every scan is Bounds(Pruning(Merging(components))) with the captured timestamp and "
             "the caller's bounds, no component (mem, imm, any L0 file, any overlapping deeper file) can be left out -- files are skipped only by the "
             "overlap test, never by an iterator adaptor or a sub-slice --, the snapshot "
-            "is captured atomically, exhaustion is tested through key().  Does not decide ordering/exactly-once/seek landing.", "§4 C03"),
+            "is captured atomically, exhaustion is tested through key(); the files of one level are key-ordered after recovery only if mutually unordered files are not flattened into it (C01.9, known finding F32).  Does not decide ordering/exactly-once/seek landing.", "§4 C03"),
     "C11": ("SIBLINGS forwarding tables and mirror-image rules (bounds next/prev, concat seek/next/prev, pruning seek/next), GUARDED key-before-value tests, ORDER on the merging cursor's direction switch",
             "Decides sibling consistency of the combinators: value() presence tests are tombstone tests (key known Some), wrappers "
             "forward m to m and never cross key/value, a direction switch advances every child before flipping the comparator "
